@@ -11,7 +11,9 @@ from concurrent.futures import ProcessPoolExecutor
 from vlib import forkbaton, model, tlc
 
 SPEC = os.path.join(tlc.SPECS, "fork", "MC_ForkedReaders.tla")
-LINES = ["line %d %s" % (i, "é€\U0001d11e" * (i % 3) + "x" * (i * 7 % 11)) for i in range(12)]
+# 12 lines: multi-byte text, different lengths, and carriage returns (inside a line, at its end, alone on a line)
+LINES = ["line %d %s" % (i, "é€\U0001d11e" * (i % 3) + "x" * (i * 7 % 11)) + {4: "\r", 7: "\rmid", 9: "\r"}.get(i, "") for i in range(12)]
+LINES[10] = "\r"
 SCRIPTS = {"S3a": {0: [2], 1: [7], 2: [4]}, "S3b": {0: [2, 5], 1: [7, 1], 2: [4, 8]}, "S4": {0: [2], 1: [7], 2: [4], 3: [9]}}
 # how a process performs its accesses (the model only knows which line is wanted): plain indexing, iteration from the start
 # (the i-th next() wants line i), or open() / `with` on the inherited object before the first access
@@ -110,6 +112,19 @@ def _job(args):
         if variant == "map":
             return obj["k%d" % key].rstrip("\n")
         return obj[key]
+    # what a single process reads (the property is relative to that): a fresh object of the same kind, no forks
+    state.clear()
+    ref_obj = make()
+    reference = {}
+    for p_, keys in scripts.items():
+        for key in keys:
+            if key not in reference:
+                if variant == "map":
+                    reference[key] = repr(ref_obj["k%d" % key].rstrip("\n"))
+                else:
+                    reference[key] = repr(ref_obj[key])
+    ref_obj.close()
+    state.clear()
     r = forkbaton.run_schedule(make, access, scripts, sched)
     if not r["completed"]:
         # a loaded machine can starve the processes: one retry with a generous watchdog before it is believed
@@ -119,7 +134,7 @@ def _job(args):
     for p, keys in scripts.items():
         for k, key in enumerate(keys):
             got = r["values"][p][k]
-            if got != ("ok", repr(LINES[key])):
+            if got != ("ok", reference[key]):
                 bad.append({"proc": p, "access": k, "wanted_line": key, "got": got})
     return {"variant": variant, "scripts": sname, "style": style, "wanted": scripts, "schedule": sched, "bad": bad, "completed": r["completed"],
             "followed": r["followed"], "extra_steps": r["extra_steps"]}
